@@ -102,7 +102,9 @@ def run_program(ctx, rng):
     for _ in range(rng.randint(2, 4)):
         prog.pool.append(prog.fresh(sparsity=rng.choice([0.3, 0.5, 0.0])))
     trace = []
+    prog_dt = dt
     for step in range(rng.randint(10, 30)):
+        dt = prog_dt
         st = prog.pick()
         if st is None:
             break
@@ -110,7 +112,6 @@ def run_program(ctx, rng):
         trace.append(name)
         # twins must be made BEFORE an in-place step consumes the operand
         pre = [deep_twin(v) if (is_array(v) or is_vector(v)) else v for v in operands] if info.get("inplace") else None
-        prog_dt = dt
         ins = set()
         for v in operands:
             ins |= block_dtypes(v)
